@@ -41,6 +41,8 @@ REQUIRED = {
     "mon:describe()-is-repeatable-and-shown": 1000,
     "mon:expectThat.test-fails-afterwards": 100,
     "mon:mismatch-details.non-clobbering": 100,
+    "mon:expectThat.reports-what-assertThat-would": 50,
+    "mon:describe()-shows-its-own-operands": 100,
 }
 REQUIRED.update({"stock-matcher:" + n: 1 for n in ALL_NAMES})
 ASSUMPTIONS = list(c06.ASSUMPTIONS)
@@ -213,6 +215,7 @@ def x_assert(ctx, case):
             for name, text in pre:
                 self.addDetail(name, testtools.content.text_content(text))
             m = WithDetails(G.build(expr, E), mdetails)
+            observed["m"] = m
             how = case["how"]
             try:
                 if how == "assertThat":
@@ -223,7 +226,8 @@ def x_assert(ctx, case):
                     then = case.get("then")
                     if then == "match_before":
                         self.expectThat(1, testtools.matchers.Equals(1))
-                    self.expectThat(G.mkvalue(raw, E), m, message, verbose)
+                    observed["value"] = G.mkvalue(raw, E)
+                    self.expectThat(observed["value"], m, message, verbose)
                     # further expectations that hold do not take an earlier failed one back
                     if then == "match_after":
                         self.expectThat(1, testtools.matchers.Equals(1))
@@ -279,6 +283,19 @@ def x_assert(ctx, case):
             ok = ok and len(hits) == 1
         ctx.check(ok, "mismatch-details.non-clobbering",
                   lambda: {"pre": pre, "mismatch details": mdetails, **detail()})
+        if how == "expectThat":
+            # the failed expectation is reported with the text assertThat would have raised for the same
+            # arguments (verbose: matchee and matcher included; a message: the annotation included)
+            try:
+                # (the very same matcher and value objects: some texts carry an object's address)
+                assert_that(observed["value"], observed["m"], message, verbose)
+                twin = None
+            except MismatchError as e:
+                twin = str(e)
+            fe = b"\n".join(v for k, v in sorted(have.items()) if k.startswith("Failed expectation"))
+            ctx.check(twin is not None and twin.encode("utf8", "replace") in fe, "expectThat.reports-what-assertThat-would",
+                      lambda: {"assertThat's text": twin, "Failed expectation": fe.decode("utf8", "replace")[-400:],
+                               "verbose": verbose, "message": message, **detail()})
     return not want
 
 
@@ -323,7 +340,63 @@ def x_reported_text(ctx, case):
     return True
 
 
-SUBCHECKS = {"describe": x_describe, "text_repr": x_text_repr, "assert": x_assert, "reported_text": x_reported_text}
+class Box:
+    """Identity-hashed, with a repr that follows its (mutable) payload."""
+
+    def __init__(self, payload):
+        self.payload = payload
+
+    def __repr__(self):
+        return "Box(%r)" % (self.payload,)
+
+    def __lt__(self, other):
+        return False
+
+    def __gt__(self, other):
+        return False
+
+
+def x_operand_twins(ctx, case):
+    """Several comparisons in one process whose operands are equal but of different types (1 / True / 1.0,
+    a tuple of ints / of floats), or one object that changed in between: each mismatch's text shows ITS
+    operands (their repr or pretty-printed form), not those of an earlier comparison."""
+    from pprint import pformat
+    from testtools import matchers as M
+    cmp = getattr(M, case["cmp"])
+    big = 2 ** 200
+    pool = [tuple(range(100, 135)), tuple(range(35)), tuple(float(i) for i in range(35)), big, float(big), True, 1,
+            1.0, frozenset(range(40)), frozenset(float(i) for i in range(40))]
+    if case.get("order") == "reversed":
+        pool.reverse()
+    shows = lambda d, x: pformat(x) in d or repr(x) in d  # noqa: E731
+    seen = 0
+    for ref in pool:
+        for actual in pool:
+            try:
+                mm = cmp(ref).match(actual)
+            except TypeError:
+                continue            # unorderable pair
+            if mm is None:
+                continue
+            d = mm.describe()
+            seen += 1
+            ctx.check(shows(d, actual) and shows(d, ref), "describe()-shows-its-own-operands",
+                      lambda: {"matcher": "%s(%r)" % (case["cmp"], ref), "value": repr(actual), "describe()": d})
+    box = Box(list(range(40)))
+    ref = tuple(range(100, 135))
+    for payload in (None, ["changed"] * 12, {"k": "v" * 50}):
+        if payload is not None:
+            box.payload = payload
+        mm = cmp(ref).match(box) if case["cmp"] != "NotEquals" else cmp(box).match(box)
+        if mm is not None:
+            d = mm.describe()
+            seen += 1
+            ctx.check(shows(d, box), "describe()-shows-its-own-operands",
+                      lambda: {"matcher": case["cmp"], "value now": repr(box), "describe()": d})
+    return seen > 0
+
+
+SUBCHECKS = {"describe": x_describe, "operand_twins": x_operand_twins, "text_repr": x_text_repr, "assert": x_assert, "reported_text": x_reported_text}
 
 ALPHABET = ["'", '"', "\\", "\n", "\r", "a", "\xe9", "\U0001f600", "\x00", "\x7f", " ", " "]
 BALPHABET = [0x27, 0x22, 0x5c, 0x0a, 0x0d, 0x61, 0xe9, 0xff, 0x00, 0x7f, 0x20, 0x80]
@@ -393,6 +466,10 @@ def run(ctx):
         vals = [v for v in G.domain_values(dom, e) if len(v) == 2]      # plain lists / dicts
         if vals:
             ctx.execute("reported_text", {"expr": e, "value": rng.choice(vals), "verbose": rng.random() < 0.5})
+    for cmp in ("Equals", "NotEquals", "LessThan", "GreaterThan"):
+        for order in ("given", "reversed"):
+            if ctx.mine():
+                ctx.execute("operand_twins", {"cmp": cmp, "order": order})
     # ---- (c) assertThat / assert_that / expectThat -------------------------------------------------
     names = ["foo", "foo-1", "log", "log-1", "traceback", "Failed expectation"]
     for i in range(ctx.scale(8000, 400000)):
